@@ -308,7 +308,10 @@ impl Node {
                 // tag end, returns
                 break;
             }
-            if let Some(range) = ps.consume_str("<!") {
+            // (`<!` that starts neither a comment nor a meta tag is text, like a lone `<`)
+            let is_special_tag = ps.peek_str("<!--")
+                || (ps.peek_str("<!") && ps.peek::<2>().map_or(false, Ident::is_start_char));
+            if let Some(range) = is_special_tag.then(|| ps.consume_str("<!")).flatten() {
                 // special tags
                 // currently we only support comments
                 // report a warning on other cases
@@ -362,7 +365,11 @@ impl Node {
                 let Some(ch) = ps.peek::<1>() else {
                     return false;
                 };
-                if ch == '/' || ch == '!' || Ident::is_start_char(ch) {
+                if ch == '!' {
+                    return ps.peek_str("<!--")
+                        || ps.peek::<2>().map_or(false, Ident::is_start_char);
+                }
+                if ch == '/' || Ident::is_start_char(ch) {
                     return true;
                 }
                 false
